@@ -256,6 +256,9 @@ pub struct ServerPlan {
     pub unsolicited: Vec<Unsol>,
     pub hostile: Option<Hostile>,
     pub paging: Option<PagingModel>,
+    /// the server closes the connection when the request with this arrival index arrives (before answering)
+    #[serde(default)]
+    pub close_on_arrival: Option<usize>,
 }
 
 #[derive(Clone, Copy, Debug, PartialEq, Eq, Hash, PartialOrd, Ord, Serialize, Deserialize)]
